@@ -60,7 +60,7 @@ fixed("C12", "6479459", "a write that failed after some bytes had reached the fi
 fixed("C12", "aaed9cd", "a create/truncate error of the next segment during rotation left db.ActiveFile nil: the transaction failed, and the next Commit and Close panicked (nil pointer dereference), so the database could be neither used nor closed", "C12|close-failed-after-fault|Close@create .dat|*|fault")
 open_("C12", ["C12|effect-on-later-commit|*|S/*|fault"],
       SP + "a record write or sync that fails leaves the key position map (BPTreeKeyEntryPosMap) pointing at the entry that was not written; after the next rotation the sparse index of the sealed segment refers to a hole and Get/GetAll/scans panic with a nil entry")
-open_("C12", ["C12|effect-in-process|*|*|fault", "C12|effect-after-reopen|*|S/*|fault"],
+open_("C12", ["C12|effect-in-process|Get:*|*|fault", "C12|effect-in-process|GetAll:*|*|fault", "C12|effect-in-process|PrefixScan(*|*|fault", "C12|effect-in-process|RangeScan:*|*|fault", "C12|effect-after-reopen|*|S/*|fault"],
       "an I/O error in the middle of Commit (record write, sync, or create/truncate of the next segment during rotation) returns an error but leaves the transaction's earlier entries inserted in the in-memory index (and, after a failed rotation, the active file closed): reads in the running process change although the transaction failed; in sparse mode the partial commit also survives reopen")
 open_("C13", ["C13|call-result|*|KV/*|*", "C13|obs-mismatch|SCard:wrong-value|KV/*|*", "C13|obs-mismatch|SIsMember:wrong-value|KV/*|*", "C13|obs-mismatch|SMembers:extra|KV/*|*", "C13|obs-mismatch|SUnionByOneBucket:extra|KV/*|*",
               "C13|obs-mismatch|LRange:extra|KV/*|*", "C13|obs-mismatch|LSize:wrong-value|KV/*|*", "C13|obs-mismatch|LPeek:wrong-value|KV/*|*", "C13|obs-mismatch|RPeek:wrong-value|KV/*|*"],
